@@ -263,4 +263,14 @@ PROPS = {
         "assumptions": COMMON_ASSUME + ["the lockset discipline is a sufficient condition checked on every explored path, not the Go race detector's verdict; happens-before through channels/WaitGroup is not modelled"],
         "outside": "the Go runtime's own race detection and memory model, real SIGSEGV/SIGBUS on unmapped memory, goroutine leaks and the ticker-driven background worker (time/context/select not modelled: all harnesses use interval 0), races inside a user-supplied FileSystem (fs.Mem's own map is not monitored), more than 2 threads",
     },
+    "C13": {
+        "quick": [
+            {"harness": "H_C13_lock2", "pkg": "fs"},
+            {"harness": "H_C13_lock3", "pkg": "fs"},
+        ],
+        "covers": {"quick": ["C13.lock.done", "C13.lock.an-opener-acquired", "C13.lock.all-openers-rejected"]},
+        "bounds": {"quick": "fs.OS lock file over the kernel model: 1 releasing owner (unlink, close) and 2 or 3 openers (stat, open, flock), every interleaving of their system calls (scheduling points between the calls)"},
+        "assumptions": COMMON_ASSUME + ["kernel model of stat/open(O_CREAT)/flock(LOCK_EX|LOCK_NB)/unlink/close (hand-written from the POSIX/Linux contract; counterexamples are replayed on the real kernel through the verif yield hooks)"],
+        "outside": "NFS and other flock semantics, Windows/Plan 9 lock files, more than 3 openers",
+    },
 }
